@@ -16,6 +16,12 @@ import (
 // runC13Case: generated scripts of Insert2/Delete/DeleteNode/Lookup over a small key
 // space under a generated schedule; porcupine per key; final scan; C14 walk.
 func runC13Case(t *rapid.T, st *ev.Stats, f *failer) (nontrivial bool, w *slWorld, contended bool) {
+	return runC13CaseR(t, st, f, false)
+}
+
+// runC13CaseR optionally adds scanning iterator threads (they help unlinking marked nodes, which
+// is part of what the statistics must account for).
+func runC13CaseR(t *rapid.T, st *ev.Stats, f *failer, withReaders bool) (nontrivial bool, w *slWorld, contended bool) {
 	mm := rapid.Bool().Draw(t, "mm")
 	w = newSLWorld(f, mm, guard.Trap)
 	keySpace := rapid.IntRange(3, 5).Draw(t, "keyspace")
@@ -44,8 +50,28 @@ func runC13Case(t *rapid.T, st *ev.Stats, f *failer) (nontrivial bool, w *slWorl
 	}
 	nth := rapid.IntRange(2, 4).Draw(t, "threads")
 	scripts := drawSLScripts(t, nth, 5, keySpace, !mm, len(shared))
-	picker, pdesc := sched.DrawPicker(t, nth, 400)
-	f.logf("skiplist mm=%v pre=%v levels=%v scripts=%s sched=%s", mm, pre, lv, fmtSLScripts(scripts), pdesc)
+	nreaders := 0
+	if withReaders {
+		nreaders = rapid.IntRange(0, 2).Draw(t, "readers")
+	}
+	if nreaders > 0 {
+		w.extra = func(s *sched.Sched) {
+			for r := 0; r < nreaders; r++ {
+				s.Go(func(th *sched.Thread) {
+					for pass := 0; pass < 2; pass++ {
+						it := w.sl.NewIterator(skiplist.CompareInt, w.sl.MakeBuf())
+						for it.SeekFirst(); it.Valid(); it.Next() {
+							s.Yield(0)
+						}
+						it.Close()
+						s.Yield(0)
+					}
+				})
+			}
+		}
+	}
+	picker, pdesc := sched.DrawPicker(t, nth+nreaders, 400)
+	f.logf("skiplist mm=%v pre=%v levels=%v scripts=%s readers=%d sched=%s", mm, pre, lv, fmtSLScripts(scripts), nreaders, pdesc)
 	if fail := w.runScripts(scripts, picker, shared, nil); fail != nil {
 		f.failf(w.failSig(fail), "%s%v", w.describeFault(fail), fail)
 	}
@@ -123,7 +149,7 @@ func TestC14(t *testing.T) {
 	rapid.Check(t, func(t *rapid.T) {
 		sched.SeedRand(t)
 		f := &failer{t: t, st: st}
-		_, w, contended := runC13Case(t, st, f)
+		_, w, contended := runC13CaseR(t, st, f, true)
 		defer w.release()
 		// a second, sequential phase on the same list, then another walk
 		buf := w.sl.MakeBuf()
